@@ -48,6 +48,41 @@ Proof. intros Hu. apply in_perm_phi, Hadj, Hu. Qed.
 Lemma adj_ex u y : In u (gnodes g) -> In y (gadj g' (phi u)) -> exists v, y = phi v /\ In v (gadj g u).
 Proof. intros Hu. apply in_perm_ex, Hadj, Hu. Qed.
 
+(* ---------- the domain predicates of the copy follow from those of the original ---------- *)
+Lemma NoDup_nodupb (l : list node) : NoDup l -> nodupb l = true.
+Proof.
+  induction 1 as [|x l Hx Hl IH]; [reflexivity|]. cbn [nodupb]. rewrite IH, andb_true_r. apply negb_true_iff.
+  apply dmem_false. exact Hx.
+Qed.
+Lemma In_subsetb (a b : list node) : (forall v, In v a -> In v b) -> subsetb a b = true.
+Proof. intros H. unfold subsetb. apply forallb_forall. intros x Hx. apply dmem_In, H, Hx. Qed.
+Lemma nodupb_perm_phi l l' : Permutation l' (map phi l) -> nodupb l = true -> nodupb l' = true.
+Proof.
+  intros P H. apply NoDup_nodupb. apply (Permutation_NoDup (Permutation_sym P)). apply NoDup_map_phi, DiscreteP.nodupb_NoDup, H.
+Qed.
+Lemma subsetb_perm_phi a a' b b' : Permutation a' (map phi a) -> Permutation b' (map phi b) ->
+  subsetb a b = true -> subsetb a' b' = true.
+Proof.
+  intros Pa Pb H. apply In_subsetb. intros x Hx. destruct (in_perm_ex x _ _ Pa Hx) as [v [-> Hv]].
+  apply (in_perm_phi v _ _ Pb). apply (DiscreteP.subsetb_In _ _ H v Hv).
+Qed.
+Lemma disjointb_perm_phi : forallb (fun v => negb (mem v r0)) i0 = true -> forallb (fun v => negb (mem v r0')) i0' = true.
+Proof.
+  intros H. apply forallb_forall. intros x Hx. destruct (in_perm_ex x _ _ Hi0 Hx) as [v [-> Hv]].
+  rewrite (mem_perm_phi v _ _ Hr0). rewrite forallb_forall in H. apply H, Hv.
+Qed.
+Theorem wf_inputb_iso : wf_inputb g i0 r0 = true -> wf_inputb g' i0' r0' = true.
+Proof.
+  unfold wf_inputb. intros H.
+  apply andb_true_iff in H. destruct H as [H H7]. apply andb_true_iff in H. destruct H as [H H6].
+  apply andb_true_iff in H. destruct H as [H H5]. apply andb_true_iff in H. destruct H as [H H4].
+  apply andb_true_iff in H. destruct H as [H H3]. apply andb_true_iff in H. destruct H as [H1 H2].
+  rewrite (nodupb_perm_phi _ _ Hnodes H1), (nodupb_perm_phi _ _ Hi0 H3), (nodupb_perm_phi _ _ Hr0 H4).
+  rewrite (subsetb_perm_phi _ _ _ _ Hi0 Hnodes H5), (subsetb_perm_phi _ _ _ _ Hr0 Hnodes H6), (disjointb_perm_phi H7).
+  rewrite !andb_true_r. apply forallb_forall. intros x Hx. destruct (in_perm_ex x _ _ Hnodes Hx) as [u [-> Hu]].
+  rewrite forallb_forall in H2. apply (subsetb_perm_phi _ _ _ _ (Hadj u Hu) Hnodes (H2 u Hu)).
+Qed.
+
 (* ====================================================================== *)
 (* discrete_SIR                                                            *)
 (* ====================================================================== *)
@@ -55,7 +90,7 @@ Section DSIR.
 Variables (tt tt' : node -> node -> nat -> bool).
 Hypothesis HT : forall u v, tt' (phi u) (phi v) O = tt u v O.
 Hypothesis W : wf_inputb g i0 r0 = true.
-Hypothesis W' : wf_inputb g' i0' r0' = true.
+Let W' : wf_inputb g' i0' r0' = true := wf_inputb_iso W.
 Notation T := (T0 tt).
 Notation T' := (T0 tt').
 
@@ -174,20 +209,21 @@ Qed.
 
 (* discrete_SIR on the relabelled / re-ordered input, any two iteration-order oracles, any pick rules:
    identical rows; per-node histories mapped through phi (listed in the order of the copy's node list) *)
-Theorem dsir_relabel_invariant pick pick' ord ord' tmin tmax full fuel fuel' :
+Theorem dsir_relabel_invariant r0o r0o' pick pick' ord ord' tmin tmax full fuel fuel' :
+  opt_list r0o = r0 -> opt_list r0o' = r0' ->
   perm_oracle ord -> perm_oracle ord' -> (length (gnodes g) < fuel)%nat -> (length (gnodes g') < fuel')%nat ->
   exists out out',
-    discrete_SIR g (det_rules tt pick) None ord (Some i0) (Some r0) None tmin tmax full fuel = Ret out /\
-    discrete_SIR g' (det_rules tt' pick') None ord' (Some i0') (Some r0') None tmin tmax full fuel' = Ret out' /\
+    discrete_SIR g (det_rules tt pick) None ord (Some i0) r0o None tmin tmax full fuel = Ret out /\
+    discrete_SIR g' (det_rules tt' pick') None ord' (Some i0') r0o' None tmin tmax full fuel' = Ret out' /\
     so_rows (o_sim out') = so_rows (o_sim out) /\
     (if full then exists h h', option_map fd_hist (so_full (o_sim out)) = Some h /\ option_map fd_hist (so_full (o_sim out')) = Some h' /\
                                Permutation h' (relabel_hist h)
      else so_full (o_sim out) = None /\ so_full (o_sim out') = None).
 Proof.
-  intros O1 O2 F1 F2.
-  destruct (dsir_bfs g tt pick ord i0 (Some r0) tmin tmax full fuel W O1 F1) as (K & out & HK & Hrun & Hrows & Hfull & _).
-  destruct (dsir_bfs g' tt' pick' ord' i0' (Some r0') tmin tmax full fuel' W' O2 F2) as (K' & out' & HK' & Hrun' & Hrows' & Hfull' & _).
-  cbn [opt_list] in *.
+  intros E1 E2 O1 O2 F1 F2. pose proof W as W1. pose proof W' as W2. rewrite <- E1 in W1. rewrite <- E2 in W2.
+  destruct (dsir_bfs g tt pick ord i0 r0o tmin tmax full fuel W1 O1 F1) as (K & out & HK & Hrun & Hrows & Hfull & _).
+  destruct (dsir_bfs g' tt' pick' ord' i0' r0o' tmin tmax full fuel' W2 O2 F2) as (K' & out' & HK' & Hrun' & Hrows' & Hfull' & _).
+  cbv zeta in *. rewrite E1 in *. rewrite E2 in *.
   assert (EK : K' = K) by (apply (first_stop_unique g tt i0 r0 tmin tmax); [apply first_stop_iff, HK'|exact HK]). subst K'.
   exists out, out'. split; [exact Hrun|]. split; [exact Hrun'|]. split.
   - rewrite Hrows, Hrows'. unfold l1_rows. rewrite rows_to_eq. reflexivity.
@@ -245,6 +281,25 @@ Proof.
   split; [|apply hpath_fwd]. intros H. destruct (hpath_bwd _ _ H) as [u [E Hu]]. apply Hinj in E. subst. exact Hu.
 Qed.
 
+Lemma nonneg_all_perm u : In u (gnodes g) ->
+  forallb (fun v => nonnegx (delay u v)) (gadj g u) = true -> forallb (fun v => nonnegx (delay' (phi u) v)) (gadj g' (phi u)) = true.
+Proof.
+  intros Hu H. apply forallb_forall. intros y Hy. destruct (adj_ex u y Hu Hy) as [v [-> Hv]]. rewrite Hdelay.
+  rewrite forallb_forall in H. apply H, Hv.
+Qed.
+Theorem esir_okb_iso tmin tmax : esir_okb g delay dur i0 r0 tmin tmax = true -> esir_okb g' delay' dur' i0' r0' tmin tmax = true.
+Proof.
+  unfold esir_okb. intros H.
+  apply andb_true_iff in H. destruct H as [H H5]. apply andb_true_iff in H. destruct H as [H H4].
+  apply andb_true_iff in H. destruct H as [H H3]. apply andb_true_iff in H. destruct H as [H1 H2].
+  rewrite (nodupb_perm_phi _ _ Hnodes H1), (subsetb_perm_phi _ _ _ _ Hi0 Hnodes H3), (disjointb_perm_phi H4), H5.
+  rewrite !andb_true_r. apply forallb_forall. intros x Hx. destruct (in_perm_ex x _ _ Hnodes Hx) as [u [-> Hu]].
+  rewrite forallb_forall in H2. specialize (H2 u Hu).
+  apply andb_true_iff in H2. destruct H2 as [H2 D4]. apply andb_true_iff in H2. destruct H2 as [H2 D3].
+  apply andb_true_iff in H2. destruct H2 as [D1 D2].
+  rewrite (nodupb_perm_phi _ _ (Hadj u Hu) D1), (subsetb_perm_phi _ _ _ _ (Hadj u Hu) Hnodes D2), Hdur, D3, (nonneg_all_perm u Hu D4). reflexivity.
+Qed.
+
 Lemma ltmax_comp tmax a b : a == b -> (ltmax tmax a <-> ltmax tmax b).
 Proof.
   intros H. unfold ltmax, xltb. destruct tmax as [m|]; [|tauto]. rewrite (Qltb_comp a b m m H (Qeq_refl m)). tauto.
@@ -253,7 +308,7 @@ Qed.
 (* fast_nonMarkov_SIR (its event loop esir_run) on the relabelled / re-ordered input, ANY two tie policies:
    who is infected, every infection time, every recovery time and every final status are mapped through phi *)
 Theorem esir_relabel_invariant tb tb' tmin tmax fuel fuel' :
-  esir_okb g delay dur i0 r0 tmin tmax = true -> esir_okb g' delay' dur' i0' r0' tmin tmax = true ->
+  esir_okb g delay dur i0 r0 tmin tmax = true ->
   (esir_fuel g i0 <= fuel)%nat -> (esir_fuel g' i0' <= fuel')%nat ->
   exists sF sF',
     esir_run tb g delay dur i0 r0 tmin tmax fuel = Ok sF /\
@@ -264,7 +319,7 @@ Theorem esir_relabel_invariant tb tb' tmin tmax fuel fuel' :
                                  match r, r' with Some x, Some x' => x' == x | None, None => True | _, _ => False end)) /\
     (forall v, stat sF' (phi v) = stat sF v).
 Proof.
-  intros OK OK' F F'.
+  intros OK F F'. pose proof (esir_okb_iso tmin tmax OK) as OK'.
   destruct (EventSIRTop.esir_first_passage tb g delay dur i0 r0 tmin tmax fuel OK F) as (sF & Hrun & _ & S).
   destruct (EventSIRTop.esir_first_passage tb' g' delay' dur' i0' r0' tmin tmax fuel' OK' F') as (sF' & Hrun' & _ & S').
   exists sF, sF'. split; [exact Hrun|]. split; [exact Hrun'|].
